@@ -8,4 +8,6 @@ INVARIANT SerialResults
 INVARIANT StoreUnchanged
 INVARIANT NoDeadlock
 INVARIANT WalAtWork
+INVARIANT TxnLockAgree
+INVARIANT NoIdleTransaction
 CHECK_DEADLOCK FALSE
